@@ -28,6 +28,24 @@ def bl(xs):
     return core.clist([core.cbool(x) for x in xs])
 
 
+def birth_logpdf_independent(bd, xv):
+    """log-density of a birth distribution at xv from its parameters, with scipy - not through its own logpdf()"""
+    tot = 0.0
+    for p, v in xv.items():
+        v = float(v)
+        name = type(bd).__name__
+        if name.startswith('UniformBirth'):
+            lo, hi = float(bd.boundaries[p][0]), float(bd.boundaries[p][1])
+            tot += -math.log(hi - lo) if lo <= v <= hi else float('-inf')
+        elif name.startswith('NormalBirth'):
+            tot += float(sstats.norm.logpdf(v, loc=bd.mu[p], scale=bd.std[p]))
+        elif name.startswith('LogNormalBirth'):
+            tot += float(sstats.lognorm.logpdf(v, s=bd.std[p], scale=math.exp(bd.mu[p]))) if v > 0 else float('-inf')
+        else:
+            return None
+    return tot
+
+
 class Tap:
     """records every NestedTransdimensional._logpdf call with its component terms, and every _acceptance_ratio call"""
 
@@ -40,7 +58,7 @@ class Tap:
 
         def lp(self_, xi, givenx):
             r = tap.o_lp(self_, xi, givenx)
-            births, inmodel = [], []
+            births, inmodel, births_ind = [], [], []
             for prop in self_.proposals:
                 ps = prop.parameters
                 xv = {p: xi[p] for p in ps}
@@ -49,10 +67,12 @@ class Tap:
                 fin_g = all(v == v for v in gv.values())
                 with numpy.errstate(all='ignore'):
                     births.append(float(prop.birth_distribution.logpdf(xv)) if fin_x else float('-inf'))
+                    bi = birth_logpdf_independent(prop.birth_distribution, xv) if fin_x else float('-inf')
+                    births_ind.append(births[-1] if bi is None else bi)
                     inmodel.append(float(prop.logpdf(xv, gv)) if (fin_x and fin_g) else float('-inf'))
             tap.lp.append(dict(xi={k: v for k, v in xi.items() if k != '_state'}, given={k: v for k, v in givenx.items() if k != '_state'},
                                xi_state=[bool(x) for x in xi['_state']], given_state=[bool(x) for x in givenx['_state']],
-                               births=births, inmodel=inmodel, value=float(r)))
+                               births=births, births_ind=births_ind, inmodel=inmodel, value=float(r)))
             return r
 
         def ar(self_, logp, logl, proposal, current_logp, current_logl, current_pos):
@@ -107,11 +127,13 @@ def expected_ar(rec, succ, lo, hi, std, N):
             qf *= math.exp(fwd['inmodel'][c])
             qr *= math.exp(rev['inmodel'][c])
         elif (not cur[c]) and prop[c]:
-            qf *= math.exp(fwd['births'][c])          # born going forward
+            qf *= math.exp(fwd['births_ind'][c])          # born going forward
         elif cur[c] and not prop[c]:
-            qr *= math.exp(rev['births'][c])          # would have to be born on the way back
-    if qf == 0 or qr == 0:
+            qr *= math.exp(rev['births_ind'][c])          # would have to be born on the way back
+    if qf == 0:
         return None
+    if qr == 0:
+        return 0.0           # the reverse move is impossible: the move must never be accepted
     lf = (rec['logp'] + rec['beta'] * rec['logl']) - (rec['clogp'] + rec['beta'] * rec['clogl'])
     lr = lf + math.log(comb(N, k)) - math.log(comb(N, k2)) + math.log(qr) - math.log(qf)
     return min(1.0, math.exp(min(lr, 50.0)))
@@ -131,6 +153,9 @@ def run(seed, tier):
     for i in range(nrun):
         cfg = C.gen(rng, kind='td', allow_annealer=False)
         cfg['td_n'] = rng.choice([2, 3, 4, 5])
+        if i % 3 == 0:
+            # births narrower than the prior: components can sit where no birth can put them, so their death is irreversible
+            cfg['birth'], cfg['birth_bounds'] = 'uniform', rng.choice([(1., 3.), (0.5, 2.0)])
         cfg['nchains'] = 1
         cfg['blobs'] = False
         kstd = rng.choice([0.7, 1.0, 2.0, 3.0])
